@@ -149,7 +149,7 @@ func init() {
 	register("C08", func(e *Env) {
 		renderPrelude()
 		e.perShard = 60
-		e.rep.Rule = "iterables: []interface{} / []string / []int of length 0..4, maps with 1 entry (exact) and 2-3 entries (multiset of per-entry outputs), range/between/until/groupBy iterators, nil, non-iterables; bodies generated from {text, key, value, break, continue, if+break, if+continue, if+text (nested), inner loop} to nesting depth 2 (break/continue at every statement position incl. after an inner loop); oracle = a Go reference interpreter of the body run element by element (loop unrolling), concatenated; fixed patterns exhaustively + random bodies; non-trivial = at least one iteration; distinct by (iterable, body)"
+		e.rep.Rule = "iterables: []interface{} / []string / []int of length 0..4, maps with 1 entry (exact) and 2-3 entries (multiset of per-entry outputs), range/between/until/groupBy iterators, nil, non-iterables; bodies generated from {text, key, value, break, continue, if+break, if+continue, if+text (nested), inner loop} to nesting depth 2 (break/continue at every statement position incl. after an inner loop); oracle = a Go reference interpreter of the body run element by element (loop unrolling), concatenated; fixed patterns exhaustively + random bodies; loops evaluated several times in one render whose iterable depends on an outer loop variable, a function argument or a reassigned variable; non-trivial = at least one iteration; distinct by (iterable, body)"
 		type iterable struct {
 			name  string
 			bind  *Bind
@@ -261,6 +261,28 @@ func init() {
 		for i := 0; i < n; i++ {
 			it := its[e.Rng.Intn(len(its))]
 			judge(it, genBody(e.Rng, 2, it.cs), "rand")
+		}
+		// the same for-node evaluated several times in one render with an iterable that depends on what
+		// changed in between (outer loop variable, function argument, reassigned variable): every
+		// evaluation must iterate over the CURRENT value of its iterable
+		for _, t := range [][2]string{
+			{`<%= for (x) in [1,2,3] { %><%= for (p) in [[x,"a"],[x,"b"]] { %><%= p[0] %><%= p[1] %>;<% } %><% } %>`, "1a;1b;2a;2b;3a;3b;"},
+			{`<%= for (x) in [1,2,3] { %><%= for (p) in [x, x + 1] { %><%= p %>,<% } %>|<% } %>`, "1,2,|2,3,|3,4,|"},
+			{`<%= for (x) in [1,2] { %><%= for (p) in [{k: x}, {k: x * 10}] { %><%= p["k"] %>,<% } %><% } %>`, "1,10,2,20,"},
+			{`<%= for (x) in [1,2] { %><%= for (p) in [[[x]]] { %><%= p[0][0] %><% } %><% } %>`, "12"},
+			{`<% let f = fn(a) { %><%= for (p) in [[a], [a + 1]] { %><%= p[0] %><% } %><% } %><%= f(1) %>|<%= f(5) %>|<%= f(1) %>`, "12|56|12"},
+			{`<%= for (x) in [1,2] { %><%= for (y) in range(x, x + 1) { %><%= y %><% } %>;<% } %>`, "12;23;"},
+			{`<% let l = [0] %><%= for (x) in [1,2,3] { %><%= for (y) in l { %><%= y %><% } %>;<% l = l + x %><% } %>`, "0;01;012;"},
+			{`<%= for (x) in ["a","b"] { %><%= for (k, v) in {key: x} { %><%= k %>=<%= v %>,<% } %><% } %>`, "key=a,key=b,"},
+			{`<%= for (x) in [1,2] { %><%= for (y) in [x] { %><%= for (z) in [[y, x]] { %><%= z[0] + z[1] %><% } %><% } %>,<% } %>`, "2,4,"},
+			{`<%= for (x) in [[1,2],[3]] { %><%= for (y) in x { %><%= y %><% } %>|<% } %>`, "12|3|"},
+		} {
+			c := RCase{Tmpl: t[0]}
+			o := e.addRenderCase("revisit", c)
+			e.Distinct(t[0])
+			if o.Class != "OK" || o.Out != t[1] {
+				e.Violate("c08-unroll", fmt.Sprintf("%s: rendered %q (%s %s), element-by-element reference %q", t[0], o.Out, o.Class, o.Msg, t[1]), map[string]interface{}{"case": c, "observed": o})
+			}
 		}
 		// the repaired defect F7 and the seeded iterator-index mutant stay in the corpus
 		for _, t := range []string{
